@@ -263,6 +263,34 @@ def run(tier, seed, rng):
         if probs:
             failures.append(Failure(what='; '.join(probs[:3])[:500], case=case, impl=probs[:8], model='Frame.step_env', oracle_rejects=True,
                                     correspondence=CORRESPONDENCES[0], theorems=THEOREMS, oracle='finite gradients in, finite gradients out (property text)'))
+    # ---- outputs / autograd gradients with and without K-FAC under one seed, stochastic layer after a registered conv, small and LARGE
+    # feature maps (> 2**17 patches per pass) ----
+    for k, (B, HW) in enumerate([(4, 16), (8, 144)] if tier == 'quick' else [(4, 16), (8, 144), (2, 300), (16, 96)]):
+        torch.manual_seed(seed + 7000 + k)
+        base = torch.nn.Sequential(torch.nn.Conv2d(1, 2, 1), torch.nn.ReLU(), torch.nn.Dropout(0.5), torch.nn.AdaptiveAvgPool2d(3),
+                                   torch.nn.Flatten(), torch.nn.Linear(18, 3))
+        twin = copy.deepcopy(base)
+        pk = KFACPreconditioner(base)
+        x = torch.randn(B, 1, HW, HW); wts = torch.randn(B, 3)
+        outs = []
+        for mdl in (base, twin):
+            torch.manual_seed(seed + 7100 + k)
+            mdl.train(); mdl.zero_grad()
+            y = mdl(x)
+            (y * wts).sum().backward()
+            outs.append((y.detach().clone(), [q.grad.detach().clone() for q in mdl.parameters()], torch.get_rng_state().clone()))
+        case = {'kind': 'rng-transparency', 'batch': B, 'size': HW, 'patches': B * HW * HW, 'seed': seed + 7000 + k}
+        cov.add(case, True, sample_cap=1); cov.count('kind', 'rng-transparency')
+        probs = []
+        if not torch.equal(outs[0][0], outs[1][0]):
+            probs.append(f'registering K-FAC changed the model output under a fixed seed (max diff {float((outs[0][0] - outs[1][0]).abs().max()):.2e}; {B * HW * HW} patches)')
+        if any(not torch.equal(a, b) for a, b in zip(outs[0][1], outs[1][1])):
+            probs.append('registering K-FAC changed the autograd gradients under a fixed seed')
+        if not torch.equal(outs[0][2], outs[1][2]):
+            probs.append('the forward/backward pass with K-FAC registered consumed global random numbers')
+        if probs:
+            failures.append(Failure(what='; '.join(probs)[:500], case=case, impl=probs, model='Frame.step_env', oracle_rejects=True,
+                                    correspondence=CORRESPONDENCES[1], theorems=THEOREMS, oracle='same seed, same model: same outputs and gradients with and without K-FAC'))
     return cov, failures
 
 
